@@ -215,6 +215,7 @@ func (r *Run) Start() {
 		r.steps++
 		next.steps++
 		r.Trace = append(r.Trace, next.Name)
+		r.TraceKinds = append(r.TraceKinds, next.Name+":"+next.kind)
 		r.cur = next
 		last = next.ID
 		next.wake <- true
